@@ -488,7 +488,9 @@ func (p *program) assignCheckerParams() error {
 	return nil
 }
 
-var generatedFileCommentRE = regexp.MustCompile("Code generated .* DO NOT EDIT.")
+// A marker line starts with "Code generated": a comment that merely
+// quotes the marker in the middle of a sentence doesn't make a file generated.
+var generatedFileCommentRE = regexp.MustCompile("(?m)^Code generated .* DO NOT EDIT.")
 
 func (p *program) isGenerated(f *ast.File) bool {
 	if ast.IsGenerated(f) {
